@@ -24,6 +24,12 @@ def rs_config(ch, motor=0, buttons=0, margin=0, ct=0, ot=0, func=FNC_RS):
     cfg = struct.pack('<iiBBbB', ct, ot, motor, buttons, margin, 0) + bytes(32)
     return struct.pack('<BiBH', ch, func, 0, len(cfg)) + cfg
 
+def fb_config(ch, motor=0, buttons=0, margin=0, ct=0, ot=0, tt=0, tilt_type=0):
+    cfg = struct.pack('<iiiBBbHHBB', ct, ot, tt, motor, buttons, margin, 0, 180, tilt_type, 0) + bytes(32)
+    return struct.pack('<BiBH', ch, FNC_FB, 0, len(cfg)) + cfg
+def at_config(ch, mask): return struct.pack('<BiBHI', ch, 700, 0, 4, mask)
+AT_CAPS = (1 << 10) | (1 << 11) | (1 << 12)          # HOLD, SHORT_PRESS_x1, SHORT_PRESS_x2
+
 def pin_of(idx, which): return 1 + 2 * idx + which
 def btn_pin(idx, which): return 9 + 2 * idx + which
 
@@ -113,12 +119,24 @@ class C08(F.PropCheck):
             for i in range(n):
                 if mask >> i & 1 and k < 3: pins[(i, 0)] = 9 + 2 * k; pins[(i, 1)] = 10 + 2 * k; k += 1
             if extra: pins[((extra - 1) // 2, (extra - 1) % 2)] = 15
+        # a share of the monostable boards has action-trigger capable buttons: the server enables some triggers (advanced input mode);
+        # a HOLD that is not an active trigger then drives the shutter through supla_esp_input_send_action_trigger
+        atcap = AT_CAPS if (btn == 2 and not legacy_buttons and rng.random() < 0.35) else 0
         tags = ['sys', 'n%d' % n, 'btn%d' % btn, 'motor%d' % mmode, 'autocal' if rsflags else 'manual', 'calibrated' if t1 else 'uncalibrated']
         if n == 4 and ((3, 0) in pins or (3, 1) in pins): tags.append('button-on-last-slots')
         # espconn_connect happens 200 ms after boot; the register call leaves at 500 ms; the first watchdog tick is at 1 s
         evs = [('ADV', [300000], b''), ('CONNCB', [], b''), ('ADV', [300000], b''), ('REGOK', [rng.choice([30, 30, 10])], b''), ('ADV', [rng.choice([100000, 600000, 1100000])], b'')]
         t_est = 600000 + evs[-1][1][0]; rr = 2; marks = []
         L = rng.choice([6, 10, 16, 24])
+        if atcap:
+            tags.append('at-buttons')
+            kk = 0
+            for i2 in range(n):
+                if mask >> i2 & 1 and kk < 3:
+                    for w2 in (0, 1):
+                        evs.append(('SRV', [CALL_CFG_RESULT, rr], at_config(5 + 2 * kk + w2, rng.choice([1 << 12, (1 << 11) | (1 << 12), 1 << 12])))); rr += 1
+                    kk += 1
+            evs.append(('ADV', [200000], b'')); t_est += 200000
         pressed = {}
         def press(p, hold):
             nonlocal t_est
@@ -145,10 +163,20 @@ class C08(F.PropCheck):
             elif k < 0.55 and pins:
                 cand = [q for q in sorted(pins) if q[0] == i] or sorted(pins)
                 press(pins[rng.choice(cand)], rng.choice([30000, 150000, 150000, 300000, 700000, 1300000]))
-            elif k < 0.60:
+            elif k < 0.58:
                 evs.append(('SRV', [CALL_CALCFG, rr], calcfg_recalibrate(i, rng.choice([1, 1, 0])))); rr += 1
+            elif k < 0.60 and not legacy_buttons:
+                # connection lost and re-established in the middle of the activity (reconnect, registration again)
+                evs += [('DISCCB', [], b''), ('ADV', [rng.choice([300000, 2500000])], b''), ('CONNCB', [], b''), ('ADV', [300000], b''), ('REGOK', [30], b'')]
+                t_est += 3000000; tags.append('reconnect')
             elif k < 0.70:
                 ch = i if i < 3 else rng.randrange(3)   # ButtonsUpsideDown on channel >= 3 is the out-of-bounds defect of C03, not ours
+                if rng.random() < 0.3 and not legacy_buttons:
+                    # facade-blind function: supla_esp_gpio_fb_apply_new_config (own copy of the motor swap), tilting time / type
+                    evs.append(('SRV', [rng.choice([CALL_CFG_RESULT, CALL_SET_CFG]), rr],
+                                fb_config(ch, motor=rng.choice([0, 1, 2, 2]), buttons=rng.choice([0, 1, 2]), margin=rng.choice([0, -1, 1]),
+                                          ct=rng.choice([0, t2]), ot=rng.choice([0, t1]), tt=rng.choice([0, 500, 1500]), tilt_type=rng.choice([0, 1, 2, 3])))); rr += 1
+                    tags.append('fb-config'); continue
                 evs.append(('SRV', [rng.choice([CALL_CFG_RESULT, CALL_SET_CFG]), rr],
                             rs_config(ch, motor=rng.choice([0, 1, 2, 2]), buttons=rng.choice([0, 1, 2]), margin=rng.choice([0, -1, 1, 30]),
                                       ct=rng.choice([0, t2]), ot=rng.choice([0, t1])))); rr += 1
@@ -168,7 +196,7 @@ class C08(F.PropCheck):
         # running clock: each read of the counter costs 1 us (as on the chip, time passes inside a call) in a share of the cases
         tick = 0 if legacy_buttons else rng.choice([0, 1, 1])
         if tick: tags.append('running-clock')
-        cfg = [boot, n, 0, 1, btn, bflags, mmode, up_ms, down_ms, rng.choice([0, 300]), rsflags, t1, t2, 0, mask if n == 4 and not legacy_buttons else 0, extra, tick]
+        cfg = [boot, n, 0, 1, btn, bflags, mmode, up_ms, down_ms, rng.choice([0, 300]), rsflags, t1, t2, 0, mask if n == 4 and not legacy_buttons else 0, extra, tick, atcap]
         return F.Case(cid, [('CFG', cfg, b'')] + evs, tags)
 
     def gen_cases(self, rng, n, tier):
